@@ -2,7 +2,7 @@ import IoraModel.Model.HttpRespondRestart
 namespace Iora.HttpRespond
 open Iora
 
-theorem rmarkFirst_gen (ts : List RTask) : ∀ t' ∈ rmarkFirst ts, ∃ t ∈ ts, t'.gen = t.gen ∧ t'.sid = t.sid := by
+theorem rmarkFirst_gen (o : Option Nat) (ts : List RTask) : ∀ t' ∈ rmarkFirst o ts, ∃ t ∈ ts, t'.gen = t.gen ∧ t'.sid = t.sid := by
   induction ts with
   | nil => intro t' h; cases h
   | cons a as ih =>
@@ -17,7 +17,22 @@ theorem rmarkFirst_gen (ts : List RTask) : ∀ t' ∈ rmarkFirst ts, ∃ t ∈ t
       · exact ⟨a, List.mem_cons_self, rfl, rfl⟩
       · exact ⟨t', List.mem_cons_of_mem _ h, rfl, rfl⟩
 
-theorem remitAt_tasks (ts : List RTask) (i : Nat) : ∀ t' ∈ (remitAt ts i).2, ∃ t ∈ ts, t'.gen = t.gen ∧ t'.sid = t.sid := by
+theorem rmarkFirst_stamp (ts : List RTask) : ∀ t' ∈ rmarkFirst none ts, ∃ t ∈ ts, t'.gen = t.gen ∧ t'.stamp = t.stamp := by
+  induction ts with
+  | nil => intro t' h; cases h
+  | cons a as ih =>
+    intro t' h
+    unfold rmarkFirst at h
+    split at h
+    · rcases List.mem_cons.1 h with rfl | h
+      · exact ⟨t', List.mem_cons_self, rfl, rfl⟩
+      · obtain ⟨t, ht, hg⟩ := ih t' h
+        exact ⟨t, List.mem_cons_of_mem _ ht, hg⟩
+    · rcases List.mem_cons.1 h with rfl | h
+      · exact ⟨a, List.mem_cons_self, rfl, rfl⟩
+      · exact ⟨t', List.mem_cons_of_mem _ h, rfl, rfl⟩
+
+theorem remitAt_tasks (ts : List RTask) (i : Nat) : ∀ t' ∈ (remitAt ts i).2, ∃ t ∈ ts, t'.gen = t.gen ∧ t'.sid = t.sid ∧ t'.stamp = t.stamp := by
   induction ts generalizing i with
   | nil => intro t' h; cases i <;> cases h
   | cons a as ih =>
@@ -26,17 +41,17 @@ theorem remitAt_tasks (ts : List RTask) (i : Nat) : ∀ t' ∈ (remitAt ts i).2,
     | zero =>
       unfold remitAt at h
       split at h
-      · exact ⟨t', h, rfl, rfl⟩
+      · exact ⟨t', h, rfl, rfl, rfl⟩
       · split at h
-        · exact ⟨t', List.mem_cons_of_mem _ h, rfl, rfl⟩
-        · exact ⟨t', List.mem_cons_of_mem _ h, rfl, rfl⟩
+        · exact ⟨t', List.mem_cons_of_mem _ h, rfl, rfl, rfl⟩
+        · exact ⟨t', List.mem_cons_of_mem _ h, rfl, rfl, rfl⟩
         · rcases List.mem_cons.1 h with rfl | h
-          · exact ⟨a, List.mem_cons_self, rfl, rfl⟩
-          · exact ⟨t', List.mem_cons_of_mem _ h, rfl, rfl⟩
+          · exact ⟨a, List.mem_cons_self, rfl, rfl, rfl⟩
+          · exact ⟨t', List.mem_cons_of_mem _ h, rfl, rfl, rfl⟩
     | succ j =>
       simp only [remitAt] at h
       rcases List.mem_cons.1 h with rfl | h
-      · exact ⟨t', List.mem_cons_self, rfl, rfl⟩
+      · exact ⟨t', List.mem_cons_self, rfl, rfl, rfl⟩
       · obtain ⟨t, ht, hg⟩ := ih j t' h
         exact ⟨t, List.mem_cons_of_mem _ ht, hg⟩
 
@@ -63,47 +78,73 @@ theorem logSameGen_append {l m : List RCmd} (hl : LogSameGen l) (hm : LogSameGen
   · exact hl e h
   · exact hm e h
 
-/-- guarded worker: one step keeps the log clean, whatever the tasks are -/
-theorem stepR_guarded_log (P : Params) (p : RPool) (s : RStep) (h : LogSameGen p.log) : LogSameGen (stepR true P p s).log := by
+/-- the stamp a worker compares is the generation its request arrived in -/
+def Stamped (p : RPool) : Prop := ∀ t ∈ p.tasks, t.stamp = t.gen
+
+/-- epoch captured at dispatch: one step keeps the stamps right and the log clean, whatever the tasks are -/
+theorem stepR_dispatch (P : Params) (p : RPool) (s : RStep) (hs : Stamped p) (h : LogSameGen p.log) :
+    Stamped (stepR .atDispatch P p s) ∧ LogSameGen (stepR .atDispatch P p s).log := by
   cases s with
   | arrive sid data =>
     simp only [stepR]
     split
-    · exact h
+    · exact ⟨hs, h⟩
     · split
-      · apply logSameGen_append h
+      · refine ⟨hs, logSameGen_append h ?_⟩
         intro e he
         obtain ⟨c, _, rfl⟩ := List.mem_map.1 he
         rfl
-      · exact h
-  | pick => simp only [stepR]; split <;> exact h
-  | emit i =>
+      · refine ⟨?_, h⟩
+        intro t htm
+        rcases List.mem_append.1 htm with h' | h'
+        · exact hs t h'
+        · simp only [List.mem_singleton] at h'; subst h'; rfl
+  | pick =>
     simp only [stepR]
     split
-    · exact h
-    · rename_i t c _
+    · refine ⟨?_, h⟩
+      intro t' h'
+      have hne : ¬ (EpochCheck.atDispatch = EpochCheck.atTaskStart) := by decide
+      rw [if_neg hne] at h'
+      obtain ⟨t, htm, hg, hst⟩ := rmarkFirst_stamp p.tasks t' h'
+      rw [hg, hst]; exact hs t htm
+    · exact ⟨hs, h⟩
+  | emit i =>
+    have hkeep : ∀ t' ∈ (remitAt p.tasks i).2, t'.stamp = t'.gen := by
+      intro t' h'
+      obtain ⟨t, htm, hg, _, hst⟩ := remitAt_tasks p.tasks i t' h'
+      rw [hg, hst]; exact hs t htm
+    simp only [stepR]
+    split
+    · exact ⟨hkeep, h⟩
+    · rename_i t c he
       split
       · rename_i hg
-        apply logSameGen_append h
-        intro e he
-        simp only [List.mem_singleton] at he
-        subst he
-        simp only [Bool.not_true, Bool.false_or, Bool.and_eq_true, beq_iff_eq] at hg
-        exact hg.2.symm
-      · exact h
-  | stop => exact h
-  | start => exact h
+        refine ⟨hkeep, logSameGen_append h ?_⟩
+        intro e hem
+        simp only [List.mem_singleton] at hem
+        subst hem
+        have hk : (EpochCheck.atDispatch == EpochCheck.none) = false := by decide
+        simp only [hk, Bool.false_or, Bool.and_eq_true, beq_iff_eq] at hg
+        have := hs t (remitAt_emitted p.tasks i t c he)
+        show p.gen = t.gen
+        rw [← this]; exact hg.2.symm
+      · exact ⟨hkeep, h⟩
+  | stop => exact ⟨hs, h⟩
+  | start => exact ⟨hs, h⟩
 
-theorem runR_guarded_log (P : Params) (p : RPool) (steps : List RStep) (h : LogSameGen p.log) :
-    LogSameGen (runR true P p steps).log := by
+theorem runR_dispatch_log (P : Params) (p : RPool) (steps : List RStep) (hs : Stamped p) (h : LogSameGen p.log) :
+    LogSameGen (runR .atDispatch P p steps).log := by
   induction steps generalizing p with
   | nil => exact h
-  | cons s rest ih => exact ih (stepR true P p s) (stepR_guarded_log P p s h)
+  | cons s rest ih =>
+    obtain ⟨a, b⟩ := stepR_dispatch P p s hs h
+    exact ih (stepR .atDispatch P p s) a b
 
 /-- invariant of the partial theorem: every live task belongs to the current generation -/
 def TasksCurrent (p : RPool) : Prop := ∀ t ∈ p.tasks, t.gen = p.gen
 
-theorem stepR_drained (g : Bool) (P : Params) (p : RPool) (s : RStep)
+theorem stepR_drained (g : EpochCheck) (P : Params) (p : RPool) (s : RStep)
     (hs : match s with | .start => p.tasks = [] | _ => True)
     (ht : TasksCurrent p) (hl : LogSameGen p.log) :
     TasksCurrent (stepR g P p s) ∧ LogSameGen (stepR g P p s).log := by
@@ -127,7 +168,7 @@ theorem stepR_drained (g : Bool) (P : Params) (p : RPool) (s : RStep)
     split
     · refine ⟨?_, hl⟩
       intro t' h'
-      obtain ⟨t, htm, hg, _⟩ := rmarkFirst_gen p.tasks t' h'
+      obtain ⟨t, htm, hg, _⟩ := rmarkFirst_gen _ p.tasks t' h'
       rw [hg]; exact ht t htm
     · exact ⟨ht, hl⟩
   | emit i =>
@@ -154,7 +195,7 @@ theorem stepR_drained (g : Bool) (P : Params) (p : RPool) (s : RStep)
     simp only [stepR, hs] at htm
     cases htm
 
-theorem runR_drained (g : Bool) (P : Params) (p : RPool) (steps : List RStep) (hd : StartsDrained g P p steps)
+theorem runR_drained (g : EpochCheck) (P : Params) (p : RPool) (steps : List RStep) (hd : StartsDrained g P p steps)
     (ht : TasksCurrent p) (hl : LogSameGen p.log) : LogSameGen (runR g P p steps).log := by
   induction steps generalizing p with
   | nil => exact hl
